@@ -28,17 +28,23 @@ Definition C01_preserves_full : Prop :=
         enum type, composite fields of OBJECT type and (with cov = true) of INTERFACE / UNION type (abs_ok:
         __typename selected directly, inline fragments only, every possible runtime type's variant again
         in the sub-language) nested to any depth, any list / non-null wrappers;
-        pairwise distinct response keys per flattened selection set; no Python field name (when it differs from its response key) equal to another
+        pairwise distinct response keys per flattened selection set — for acceptance alone (cov = false,
+        keys_okD) a key may REPEAT among leaf selections of one field, directly or through fragments: the
+        generator does not merge, the class body's last definition wins and all of them carry the same
+        annotation (C01_repeated_leaf_key_accepted; a repeated COMPOSITE key is finding F27) —; no Python field name (when it differs from its response key) equal to another
         response key of the same set.  Ghost-output guards: no class skipped by the _public_names check
         (third component of op_parse = false), no generated class called BaseModel.
         The classes are all_classes' (operation module + fragments module).
+        @mixin directives (on the operation and on fields with a sub-selection) put extra base classes after
+        BaseModel; mx lists their names, none of which may be a class of the table (mx_ok: such a base
+        contributes no pydantic field the model knows of).  mx = [] and mixins = [] is the case without @mixin.
         Fuel: conformance at ANY fuel fc; validation at every fuel n >= fuel + 2 (the generator's fuel). ---- *)
 Theorem C01_accepts_partial :
-  forall C S frs fuel kind name sels root own pub' cls g cov fc j n,
+  forall C S frs fuel kind name mixins sels root own pub' cls g cov mx fc j n,
     root_type_name S kind = Ok root ->
-    op_parse fuel C S frs kind name [] sels = Ok (own, pub', false) ->
-    all_classes fuel C S frs (DOp kind name [] sels) = Ok cls ->
-    op_ok g cov C S frs root sels = true -> no_basemodel own = true ->
+    op_parse fuel C S frs kind name mixins sels = Ok (own, pub', false) ->
+    all_classes fuel C S frs (DOp kind name mixins sels) = Ok cls ->
+    op_ok g cov C S frs mx mixins root sels = true -> mx_ok cls mx = true -> no_basemodel own = true ->
     conf_op fc S frs root sels j = true ->
     n >= fuel + 2 ->
     accepts n cls (schema_enums S) (AClass (pascal_s name)) j = true.
@@ -48,11 +54,11 @@ Print Assumptions C01_accepts_partial.
 (* preservation: additionally pairwise distinct Python field names per selection set (op_ok _ true) and
    a payload in which no object repeats a key (jwf; true of every parsed JSON document) *)
 Theorem C01_preserves_partial :
-  forall C S frs fuel kind name sels root own pub' cls g fc j n,
+  forall C S frs fuel kind name mixins sels root own pub' cls g mx fc j n,
     root_type_name S kind = Ok root ->
-    op_parse fuel C S frs kind name [] sels = Ok (own, pub', false) ->
-    all_classes fuel C S frs (DOp kind name [] sels) = Ok cls ->
-    op_ok g true C S frs root sels = true -> no_basemodel own = true ->
+    op_parse fuel C S frs kind name mixins sels = Ok (own, pub', false) ->
+    all_classes fuel C S frs (DOp kind name mixins sels) = Ok cls ->
+    op_ok g true C S frs mx mixins root sels = true -> mx_ok cls mx = true -> no_basemodel own = true ->
     conf_op fc S frs root sels j = true -> jwf j = true ->
     n >= fuel + 2 ->
     covers n cls (AClass (pascal_s name)) j = true.
@@ -61,18 +67,18 @@ Print Assumptions C01_preserves_partial.
 
 (* ---- proved: acceptance with fragment spreads used as MIXIN base classes (sub-language op_okM =
         op_ok + spreads the generator turns into base classes: unconditional, fragment on the same type,
-        no @mixin on the fragment, the fragment's own selection set again in the sub-language, mixins of
+        the fragment's @mixin names in mx, the fragment's own selection set again in the sub-language, mixins of
         mixins to any depth; the response keys of the whole object — own fields and all inherited ones —
         pairwise distinct and disjoint from the aliased Python names).  Ghost-output guards on all_classes'
         table: class names pairwise distinct, none called BaseModel, no skip in the operation's and in any
         fragment's generation.  Validation fuel n >= F + g + 2 (F: generator fuel, g: the guard's fuel, which
         bounds nesting and mixin depth). ---- *)
 Theorem C01_accepts_partial_mixins :
-  forall C S frs F kind name sels root own pub' cls g cov fc j n,
+  forall C S frs F kind name mixins sels root own pub' cls g cov mx fc j n,
     root_type_name S kind = Ok root ->
-    op_parse F C S frs kind name [] sels = Ok (own, pub', false) ->
-    all_classes F C S frs (DOp kind name [] sels) = Ok cls ->
-    op_okM g cov C S frs root sels = true ->
+    op_parse F C S frs kind name mixins sels = Ok (own, pub', false) ->
+    all_classes F C S frs (DOp kind name mixins sels) = Ok cls ->
+    op_okM g cov C S frs mx mixins root sels = true -> mx_ok cls mx = true ->
     nodupb (map c_name cls) = true -> no_basemodel cls = true -> frag_no_skip F C S frs = true ->
     conf_op fc S frs root sels j = true ->
     n >= F + g + 2 ->
@@ -85,11 +91,11 @@ Print Assumptions C01_accepts_partial_mixins.
    base or inherited through a listed one (what _remove_inherited_fragments relies on; true of every
    document whose fragments do not spread each other cyclically) *)
 Theorem C01_preserves_partial_mixins :
-  forall C S frs F kind name sels root own pub' cls g fc j n,
+  forall C S frs F kind name mixins sels root own pub' cls g mx fc j n,
     root_type_name S kind = Ok root ->
-    op_parse F C S frs kind name [] sels = Ok (own, pub', false) ->
-    all_classes F C S frs (DOp kind name [] sels) = Ok cls ->
-    op_okM g true C S frs root sels = true ->
+    op_parse F C S frs kind name mixins sels = Ok (own, pub', false) ->
+    all_classes F C S frs (DOp kind name mixins sels) = Ok cls ->
+    op_okM g true C S frs mx mixins root sels = true -> mx_ok cls mx = true ->
     nodupb (map c_name cls) = true -> no_basemodel cls = true -> frag_no_skip F C S frs = true ->
     conf_op fc S frs root sels j = true -> jwf j = true ->
     n >= F + g + 2 ->
@@ -99,15 +105,15 @@ Print Assumptions C01_preserves_partial_mixins.
 
 (* per class, with everything it inherits (mro_fields) *)
 Theorem C01_class_with_mixins_accepts :
-  forall C S frs F cls cov,
-    NoDup (map c_name cls) -> no_basemodel cls = true ->
+  forall C S frs F cls cov mx,
+    mx_ok cls mx = true -> NoDup (map c_name cls) -> no_basemodel cls = true ->
     (forall fm, In fm frs -> unpack_fragment S fm None = false ->
        exists out pub', parse_type_def F C S frs [] (pascal_s (fr_name fm)) (fr_on fm) (fr_sel fm) false
                                         (fr_mixins fm) None = Ok (out, pub', false) /\ incl out cls) ->
-    forall g fuel pub cn rt r sels at_ tv top out pub' k l N kv fc,
-      fuel <= F -> parse_type_def fuel C S frs pub cn r sels at_ [] tv = Ok (out, pub', false) ->
-      sels_okM g cov C S frs top at_ rt r sels = true -> tv_ok rt tv ->
-      (at_ = true -> has_typename sels = true) -> table_ok cls out ->
+    forall g fuel pub cn rt r sels at_ eb tv top out pub' k l N kv fc,
+      fuel <= F -> parse_type_def fuel C S frs pub cn r sels at_ eb tv = Ok (out, pub', false) ->
+      sels_okM g cov C S frs mx top at_ rt r sels = true -> tv_ok rt tv ->
+      (at_ = true -> has_typename sels = true) -> table_ok cls out -> harmless cls eb ->
       collect k S frs rt false sels = Some l -> incl l N -> amb C S frs N rt kv fc ->
       class_good S F cls g cn kv.
 Proof. exact mix_main. Qed.
@@ -116,10 +122,11 @@ Print Assumptions C01_class_with_mixins_accepts.
 (* the same at the level of one generated class (any nesting depth below it), for any class table that
    resolves the generated names to the generated classes *)
 Theorem C01_object_accepts :
-  forall C S frs fuel g cov pub cn rt r sels at_ tv out pub' cs fc kv n,
-    parse_type_def fuel C S frs pub cn r sels at_ [] tv = Ok (out, pub', false) ->
-    sels_ok g cov C S frs at_ rt r sels = true -> tv_ok rt tv ->
+  forall C S frs fuel g cov mx pub cn rt r sels at_ eb tv out pub' cs fc kv n,
+    parse_type_def fuel C S frs pub cn r sels at_ eb tv = Ok (out, pub', false) ->
+    sels_ok g cov C S frs mx at_ rt r sels = true -> tv_ok rt tv ->
     (at_ = true -> has_typename sels = true) -> table_ok cs out ->
+    mx_ok cs mx = true -> harmless cs eb ->
     conf_obj_with (conf_val fc S frs) S rt (collect_scopes fc S frs rt [(false, sels)]) kv = true ->
     n >= fuel + 2 ->
     accepts n cs (schema_enums S) (AClass cn) (JObj kv) = true.
@@ -127,10 +134,11 @@ Proof. exact obj_accepts. Qed.
 Print Assumptions C01_object_accepts.
 
 Theorem C01_object_covers :
-  forall C S frs fuel g pub cn rt r sels at_ tv out pub' cs fc kv n,
-    parse_type_def fuel C S frs pub cn r sels at_ [] tv = Ok (out, pub', false) ->
-    sels_ok g true C S frs at_ rt r sels = true -> tv_ok rt tv ->
+  forall C S frs fuel g mx pub cn rt r sels at_ eb tv out pub' cs fc kv n,
+    parse_type_def fuel C S frs pub cn r sels at_ eb tv = Ok (out, pub', false) ->
+    sels_ok g true C S frs mx at_ rt r sels = true -> tv_ok rt tv ->
     (at_ = true -> has_typename sels = true) -> table_ok cs out ->
+    mx_ok cs mx = true -> harmless cs eb ->
     conf_obj_with (conf_val fc S frs) S rt (collect_scopes fc S frs rt [(false, sels)]) kv = true ->
     jwf (JObj kv) = true ->
     n >= fuel + 2 ->
@@ -374,7 +382,7 @@ Example C01_super_interface_condition_regression :
   exists own pub' cls,
     op_parse 10 C0 S23 [] "query" "Q" [] sels23 = Ok (own, pub', false) /\
     all_classes 10 C0 S23 [] (DOp "query" "Q" [] sels23) = Ok cls /\
-    op_ok 10 true C0 S23 [] "Query" sels23 = true /\ no_basemodel own = true /\
+    op_ok 10 true C0 S23 [] [] [] "Query" sels23 = true /\ no_basemodel own = true /\
     map c_name cls = ["Q"; "QAnimalAnimal"] /\
     (let j := JObj [("animal", JObj [("__typename", JStr "Dog"); ("id", JStr "1"); ("name", JStr "Rex")])] in
      conf_op 10 S23 [] "Query" sels23 j = true /\
@@ -455,7 +463,7 @@ Example C01_partial_hypotheses_satisfiable :
     root_type_name SX "query" = Ok "Query" /\
     op_parse 10 C0 SX frsX "query" "GetPeople" [] selsX = Ok (own, pub', false) /\
     all_classes 10 C0 SX frsX (DOp "query" "GetPeople" [] selsX) = Ok cls /\
-    op_ok 10 true C0 SX frsX "Query" selsX = true /\ no_basemodel own = true /\
+    op_ok 10 true C0 SX frsX [] [] "Query" selsX = true /\ mx_ok cls [] = true /\ no_basemodel own = true /\
     conf_op 10 SX frsX "Query" selsX jX = true /\ jwf jX = true /\
     List.length own = 8 /\
     accepts 11 cls (schema_enums SX) (AClass (pascal_s "GetPeople")) jX = true /\
@@ -490,13 +498,77 @@ Example C01_mixins_hypotheses_satisfiable :
     root_type_name SX "query" = Ok "Query" /\
     op_parse 10 C0 SX frsM "query" "GetUsers" [] selsM = Ok (own, pub', false) /\
     all_classes 10 C0 SX frsM (DOp "query" "GetUsers" [] selsM) = Ok cls /\
-    op_okM 10 true C0 SX frsM "Query" selsM = true /\
+    op_okM 10 true C0 SX frsM [] [] "Query" selsM = true /\ mx_ok cls [] = true /\
     nodupb (map c_name cls) = true /\ no_basemodel cls = true /\ frag_no_skip 10 C0 SX frsM = true /\
     conf_op 10 SX frsM "Query" selsM jM = true /\
     map c_bases cls = [["BaseModel"]; ["UserBits"]; ["UserMore"]; ["BaseModel"]; ["BaseModel"]] /\
     jwf jM = true /\
     accepts 22 cls (schema_enums SX) (AClass (pascal_s "GetUsers")) jM = true /\
     covers 22 cls (AClass (pascal_s "GetUsers")) jM = true.
+Proof.
+  do 3 eexists.
+  split; [reflexivity|].
+  split; [vm_compute; reflexivity|].
+  split; [vm_compute; reflexivity|].
+  vm_compute. repeat split.
+Qed.
+
+(* ---- non-vacuity with @mixin: on the operation, on a field with a sub-selection and on a fragment that is
+        itself used as a mixin base class; none of the three names is a generated class ---- *)
+Definition frsMx : list fragdef :=
+  [{| fr_name := "UserBits"; fr_on := "User"; fr_mixins := ["FragMixin"];
+      fr_sel := [SField None "fullName" true [] None] |}].
+Definition selsMx : list sel :=
+  [SField None "users" false ["RowMixin"]
+     (Some [SField None "id" false [] None; SSpread "UserBits" false;
+            SField (Some "homeAddress") "address" false ["AddrMixin"] (Some [SField None "city" false [] None])])].
+Definition jMx : json :=
+  JObj [("users", JArr [JObj [("id", JStr "1"); ("fullName", JStr "A"); ("homeAddress", JObj [("city", JStr "X")])];
+                        JObj [("id", JStr "2"); ("homeAddress", JNull)]])].
+Definition mxMx : list string := ["OpMixin"; "RowMixin"; "AddrMixin"; "FragMixin"].
+
+Example C01_at_mixin_hypotheses_satisfiable :
+  exists own pub' cls,
+    root_type_name SX "query" = Ok "Query" /\
+    op_parse 10 C0 SX frsMx "query" "GetUsers" ["OpMixin"] selsMx = Ok (own, pub', false) /\
+    all_classes 10 C0 SX frsMx (DOp "query" "GetUsers" ["OpMixin"] selsMx) = Ok cls /\
+    op_okM 10 true C0 SX frsMx mxMx ["OpMixin"] "Query" selsMx = true /\ mx_ok cls mxMx = true /\
+    nodupb (map c_name cls) = true /\ no_basemodel cls = true /\ frag_no_skip 10 C0 SX frsMx = true /\
+    conf_op 10 SX frsMx "Query" selsMx jMx = true /\
+    map c_bases cls = [["BaseModel"; "OpMixin"]; ["UserBits"; "RowMixin"]; ["BaseModel"; "AddrMixin"];
+                       ["BaseModel"; "FragMixin"]] /\
+    jwf jMx = true /\
+    accepts 22 cls (schema_enums SX) (AClass (pascal_s "GetUsers")) jMx = true /\
+    covers 22 cls (AClass (pascal_s "GetUsers")) jMx = true.
+Proof.
+  do 3 eexists.
+  split; [reflexivity|].
+  split; [vm_compute; reflexivity|].
+  split; [vm_compute; reflexivity|].
+  vm_compute. repeat split.
+Qed.
+
+(* ---- a repeated leaf key (directly, through an inline fragment and through an unpacked spread, with
+        different @include flags) is inside C01_accepts_partial with cov = false; with cov = true (what
+        preservation and strictness demand) it is not ---- *)
+Definition selsD : list sel :=
+  [SField None "user" false []
+     (Some [SField None "id" false [] None;
+            SInline (Some "Node") false [SField None "id" false [] None];
+            SSpread "NodeBits" true;
+            SField (Some "n") "fullName" true [] None; SField (Some "n") "fullName" false [] None])].
+Example C01_repeated_leaf_key_accepted :
+  exists own pub' cls,
+    root_type_name SX "query" = Ok "Query" /\
+    op_parse 10 C0 SX frsX "query" "GetUser" [] selsD = Ok (own, pub', false) /\
+    all_classes 10 C0 SX frsX (DOp "query" "GetUser" [] selsD) = Ok cls /\
+    op_ok 10 false C0 SX frsX [] [] "Query" selsD = true /\ op_ok 10 true C0 SX frsX [] [] "Query" selsD = false /\
+    mx_ok cls [] = true /\ no_basemodel own = true /\
+    (let j := JObj [("user", JObj [("id", JStr "1"); ("n", JStr "A")])] in
+     conf_op 10 SX frsX "Query" selsD j = true /\
+     accepts 12 cls (schema_enums SX) (AClass (pascal_s "GetUser")) j = true) /\
+    conf_op 10 SX frsX "Query" selsD (JObj [("user", JObj [("id", JStr "1")])]) = false /\
+    accepts 12 cls (schema_enums SX) (AClass (pascal_s "GetUser")) (JObj [("user", JObj [("id", JStr "1")])]) = false.
 Proof.
   do 3 eexists.
   split; [reflexivity|].
